@@ -324,7 +324,8 @@ REDIRECTS = ["https://www.facebook.com/login/?next=https%3A%2F%2Fwww.lemonde.fr%
              "https://mashable-com.cdn.ampproject.org/c/s/mashable.com/2018/08/10/x.amp", "http://l.example.com/l.php?u=https%3A%2F%2FEXAMPLE.org%2Fp%3Fb%3D2%26a%3D1&h=AT0",
              "http://a.com/?u=/x/y/", "http://a.com/go?target=https%3A%2F%2Fb.org%2F%3Fnext%3Dhttps%253A%252F%252Fc.net%252Fz", "http://a&u=/x", "http://www.a.com/?q=http://b.org",
              "https://www.youtube.com/redirect?q=lemonde.fr%2Fa&v=1", "http://a.com/p?redirect=%2Fz%3Futm_source%3D1%23frag",
-             "a.fr/login?next=/home", "a.fr?u=/p", "www.a.fr/x/?url=%2Fy%2F&utm_source=1", "//a.fr/?u=/p"]
+             "a.fr/login?next=/home", "a.fr?u=/p", "www.a.fr/x/?url=%2Fy%2F&utm_source=1", "//a.fr/?u=/p",
+             "https://cdn.ampproject.org:443/c/s/y.com/a", "http://x.com/?Q=http://y.com/a", "http://www.google.com/url?Q=http%3A%2F%2Fy.com%2Fa", "http://x.com/?a=1&%61mp;utm_source=1&AMP;b=2"]
 
 
 def run(ctx):
